@@ -37,6 +37,10 @@ type c35Case struct {
 	GatewayPort int       `json:"gateway_port"`
 	Method      string    `json:"method"`
 	Headers     []hdrLine `json:"headers"`
+	// SNI: server name of the TLS connection the request arrived on, when it differs from the
+	// requested host (HTTP/2 and HTTP/3 clients reuse one connection for several hosts of the
+	// same certificate); "" = the requested host
+	SNI string `json:"connection_sni,omitempty"`
 }
 
 var (
@@ -100,6 +104,10 @@ func genC35(t *rapid.T) c35Case {
 		c.Host = "custom." + label + ".org" // a custom hostname (whole host is the tunnel name)
 	default:
 		c.Host = label + "." + root
+	}
+	if c.Proto != "HTTP/1.1" && rapid.IntRange(0, 2).Draw(t, "coalesced") == 0 {
+		// connection coalescing: the connection was opened for another host of the gateway
+		c.SNI = "first-" + genLabel(false, 1, 6).Draw(t, "sniLabel") + "." + root
 	}
 	c.HostPort = c.Host
 	if rapid.IntRange(0, 2).Draw(t, "hostHasPort") == 0 {
@@ -222,12 +230,18 @@ func runC35(t failT, rec *ev.Recorder, c c35Case) {
 		panic(fmt.Sprintf("harness: generated request does not parse: %v\n%s", err, raw.String()))
 	}
 	req.RemoteAddr = c.Peer
-	req.TLS = &tls.ConnectionState{ServerName: c.Host}
+	req.TLS = &tls.ConnectionState{ServerName: c.Host, NegotiatedProtocol: "http/1.1"}
+	if c.SNI != "" {
+		req.TLS.ServerName = c.SNI
+		labels["connection-sni-differs-from-requested-host"] = true
+	}
 	switch c.Proto {
 	case "HTTP/2.0":
 		req.Proto, req.ProtoMajor, req.ProtoMinor = c.Proto, 2, 0
+		req.TLS.NegotiatedProtocol = "h2"
 	case "HTTP/3.0":
 		req.Proto, req.ProtoMajor, req.ProtoMinor = c.Proto, 3, 0
+		req.TLS.NegotiatedProtocol = "h3"
 	}
 
 	var mu sync.Mutex
@@ -355,7 +369,7 @@ func runC35(t failT, rec *ev.Recorder, c c35Case) {
 
 func TestC35(t *testing.T) {
 	rec := ev.New(t, "C35")
-	rec.Rule("rapid-generated requests written as raw HTTP/1.1 text and parsed with http.ReadRequest (header keys canonical exactly as a Go server delivers them), presented as HTTP/1.1 (TLS SNI = host), HTTP/2 and HTTP/3 requests (proto fields), Host with or without a port, label.root and custom hosts, peers IPv4/IPv6, gateway ports {443, 8443, 4433, 1, 65535}; header lines: for each of X-Forwarded-For/-Host/-Proto, True-Client-IP, X-Real-IP 0..3 occurrences (odd name casing per line), each occurrence with its own value kind out of {nothing after the colon, blanks/tabs only, a typed valid value with 0..2 leading blanks, a list 'a, b', garbage, the very value the gateway would assert (peer IP / host / https)}; optionally other X-Forwarded-*/Forwarded lines, Connection: <protected header>, 0..2 benign headers; all lines in a generated permutation, so any occurrence (e.g. an empty one) can come first. The text is parsed by net/http, so real parsing decides what the handler sees (an empty first value followed by a forged one included). Each case: fresh Gateway, real tunnel proxy handler, fake tun.Server whose conn ends in a harness HTTP/1.1 peer that records the arriving request. Oracle: X-Forwarded-For = [peer IP], X-Forwarded-Proto = [https], X-Forwarded-Host = [host(:gateway port unless 443)], no True-Client-IP / X-Real-IP, no client-supplied value inside those headers. Non-trivial: >=1 spoofed protected header line present. Distinct = distinct generated requests.")
+	rec.Rule("rapid-generated requests written as raw HTTP/1.1 text and parsed with http.ReadRequest (header keys canonical exactly as a Go server delivers them), presented as HTTP/1.1 (TLS SNI = host), HTTP/2 and HTTP/3 requests (proto fields, negotiated protocol h2 / h3; for one in three of these the connection's SNI names ANOTHER host of the same gateway - connection coalescing - and the requested host is the one in the request), Host with or without a port, label.root and custom hosts, peers IPv4/IPv6, gateway ports {443, 8443, 4433, 1, 65535}; header lines: for each of X-Forwarded-For/-Host/-Proto, True-Client-IP, X-Real-IP 0..3 occurrences (odd name casing per line), each occurrence with its own value kind out of {nothing after the colon, blanks/tabs only, a typed valid value with 0..2 leading blanks, a list 'a, b', garbage, the very value the gateway would assert (peer IP / host / https)}; optionally other X-Forwarded-*/Forwarded lines, Connection: <protected header>, 0..2 benign headers; all lines in a generated permutation, so any occurrence (e.g. an empty one) can come first. The text is parsed by net/http, so real parsing decides what the handler sees (an empty first value followed by a forged one included). Each case: fresh Gateway, real tunnel proxy handler, fake tun.Server whose conn ends in a harness HTTP/1.1 peer that records the arriving request. Oracle: X-Forwarded-For = [peer IP], X-Forwarded-Proto = [https], X-Forwarded-Host = [host(:gateway port unless 443)], no True-Client-IP / X-Real-IP, no client-supplied value inside those headers. Non-trivial: >=1 spoofed protected header line present. Distinct = distinct generated requests.")
 	rec.Assume("for HTTP/1.1 the Host header equals the TLS server name (the requested host is then unambiguous)",
 		"other X-Forwarded-* names (Port, Server, Ssl, Scheme) and Forwarded are recorded as informational only: the statement's first sentence enumerates For/Proto/Host",
 		"header keys are canonical as produced by net/http servers; non-canonical map keys cannot arrive from a real listener")
